@@ -18,7 +18,8 @@ RULE = ('keys: stage(8) method_name(2) span(3) snapshot(3) log_msg(2) condition(
         'full product (186624) - each through convert_response and register_tracepoint, two hits driven; plus all lists of <=3 '
         'tracepoints over {A@L1, B@L1, C@L2, uninterpretable}; non-trivial = the combination asks for at least one effect and at '
         'least one hit is rejected or at least one effect kind is absent')
-ASSUMPTIONS = ['unknown span values, nameless method tracepoints, unknown frame_type and stack_type semantics are don\'t-cares (outside the statement)',
+ASSUMPTIONS = ['unknown span values, unknown frame_type and stack_type semantics are don\'t-cares (outside the statement)',
+               'a method tracepoint without method_name (span=method or a method stage on a line) acts on entry of the function that contains its line',
                'capture stages: log, metrics and span act at the hit, the snapshot is delivered when the method returns / at the next line of the function, a method capture with the captured `return`']
 
 PROGRAM = '''
@@ -125,8 +126,7 @@ def reference(d):
         kind = 'line'
     else:
         kind = 'method'
-    if kind == 'method' and mname is None:
-        return None  # nameless method tracepoint: outside the statement
+    # a method tracepoint without a method name is placed on the function that contains the tracepoint's line (here: M)
     cond_ok = d['condition'] in (None, 'v > 0')
     fc = 2 if d['fire_count'] == '2' else 1
     second = fc >= 2 and d['fire_period'] == '0'
